@@ -76,6 +76,7 @@ type vPod struct {
 }
 
 type vWorld struct {
+	memUnit int64 // when > 1: symbolic pod memory comes in multiples of this many bytes
 	podLists  int    // listings of all pods (one per group and scan)
 	onPodList func() // hook run at each of them
 	J       *aws.VerifJournal
@@ -172,7 +173,7 @@ func (w *vWorld) addNode(g int, class int, cordoned bool, annot int, taintAge, c
 		obj.Annotations = map[string]string{NodeEscalatorIgnoreAnnotation: "false", "other": "x"}
 		n.annotKey, n.annotated = true, true
 	case 4:
-		obj.Annotations = map[string]string{NodeEscalatorIgnoreAnnotation: "0"}
+		obj.Annotations = map[string]string{NodeEscalatorIgnoreAnnotation: " "} // non-empty, though only a blank: protects
 		n.annotKey, n.annotated = true, true
 	}
 	esc := func(val string) v1.Taint {
@@ -183,7 +184,7 @@ func (w *vWorld) addNode(g int, class int, cordoned bool, annot int, taintAge, c
 	case tcEsc:
 		obj.Spec.Taints = []v1.Taint{esc(fmt.Sprint(n.taintTs))}
 	case tcEscGarbage:
-		obj.Spec.Taints = []v1.Taint{esc("garbage")}
+		obj.Spec.Taints = []v1.Taint{esc(w.garbageValue())}
 	case tcForce:
 		obj.Spec.Taints = []v1.Taint{force}
 	case tcEscAndForce:
@@ -517,7 +518,7 @@ func (w *vWorld) retaint(n *vNode, class int, taintAge int64) {
 	case tcEsc:
 		obj.Spec.Taints = []v1.Taint{esc}
 	case tcEscGarbage:
-		esc.Value = "garbage"
+		esc.Value = w.garbageValue()
 		obj.Spec.Taints = []v1.Taint{esc}
 	case tcEscEmpty:
 		esc.Value = ""
@@ -553,6 +554,12 @@ func (w *vWorld) movePod(p *vPod, node int, daemon bool) {
 	if node >= 0 && !daemon && w.nodes[node].group == p.group {
 		w.nodes[node].groupPods++
 	}
+}
+
+// garbageValue: what an unreadable escalator taint holds in this world -- anything that is
+// not a decimal integer, including spellings other parsers would take for numbers.
+func (w *vWorld) garbageValue() string {
+	return []string{"garbage", "0x10", "1_000", "0b1", "1e3"}[verifChoice("garbageTaintValue", 5)]
 }
 
 // makeStatic turns a pod into a static (kubelet-managed, mirror) pod. For a labelled group it
